@@ -256,6 +256,9 @@ class ModelsOps:
             return CmpV(sym, l, r)
         if isinstance(l, StrV) and isinstance(r, StrV):
             if l.const is not None and r.const is not None:
+                if sym in ("<", "<=", ">", ">="):
+                    return BoolV({"<": l.const < r.const, "<=": l.const <= r.const, ">": l.const > r.const,
+                                  ">=": l.const >= r.const}[sym])
                 res = l.const == r.const
                 return BoolV(res if sym == "==" else not res)
             if r.const == "" or l.const == "":
@@ -1076,6 +1079,36 @@ class ModelsOps:
             o = OpaqueV("suppress")
             o.suppress = [getattr(a, "name", None) or "Exception" for a in args]
             return o
+        if name in ("heapq.heapify", "heapq.heappush", "heapq.heappop", "heapq.heappushpop", "heapq.heapreplace"):
+            # a heap is modelled as the plain list of its items: popping removes the least item (found by comparisons,
+            # which fork on symbolic keys) - for totally ordered items that is what any valid heap layout yields
+            h = args[0]
+            if not (isinstance(h, ListV) and h.items is not None):
+                I.unsupported(node, f"{name} on an opaque list")
+            op_ = name.split(".")[1]
+
+            def pop_min():
+                if not h.items:
+                    I.raise_("IndexError", node)
+                bi = 0
+                for i in range(1, len(h.items)):
+                    if self.truth(self.compare(ast.Lt, h.items[i], h.items[bi], node), node):
+                        bi = i
+                return h.items.pop(bi)
+            if op_ == "heapify":
+                return NONE
+            if op_ == "heappush":
+                h.items.append(args[1])
+                return NONE
+            if op_ == "heappop":
+                return pop_min()
+            if op_ == "heappushpop":
+                h.items.append(args[1])
+                return pop_min()
+            if op_ == "heapreplace":
+                v_ = pop_min()
+                h.items.append(args[1])
+                return v_
         if name in ("heapq.nlargest", "heapq.nsmallest", "nlargest", "nsmallest") and len(args) >= 2:
             return self.heap_select(name.split(".")[-1] == "nlargest", args[0], args[1], kwargs.get("key"), node)
         if name == "operator.itemgetter" and len(args) == 1:
@@ -1431,6 +1464,22 @@ class ModelsOps:
                 return ListV(out)
         if name == "sorted" and args:
             sq = self.iterate(args[0], node)
+            if sq is not None and not all(isinstance(x, Num) for x in sq) and not (
+                    sq and all(isinstance(x, (TupleV, NTupleV)) and x.items and isinstance(x.items[0], Num)
+                               and not self.st.norm(x.items[0].rf).is_const() for x in sq)):
+                # items that are not plain symbolic numbers / (symbolic number, ...) records: order them by comparisons
+                rev = kwargs.get("reverse")
+                out = []
+                for x in sq:
+                    pos = len(out)
+                    for i, y in enumerate(out):
+                        if self.truth(self.compare(ast.Lt, x, y, node), node):
+                            pos = i
+                            break
+                    out.insert(pos, x)
+                if rev is not None and self.truth(rev, node):
+                    out.reverse()
+                return ListV(out)
             if sq is not None and len(sq) <= 4:
                 # the order of symbolic keys is unknown: every permutation is a path
                 import itertools
